@@ -492,6 +492,34 @@ func (x *exec) recordEvent(st *State, fr *Frame, g *ssa.Go, kind string) {
 		args = append([]Value{fnv}, args...)
 	}
 	x.callSiteAsserts(st, fr, g, ci, args)
+	// the spawned function starts in (at best) the state of the spawn: its preconditions are obligations here
+	if fs := x.e.w.Contracts[ci.key]; fs != nil && len(fs.Requires) > 0 && fr.isUnit {
+		if fs.External || fs.Trusted != "" {
+			x.e.trustedUsed[fs.Key] = true
+		} else {
+			x.e.contractsUsed[fs.Key] = true
+		}
+		env := x.newEnv(st, fs)
+		for i, n := range paramNames(ci, fs) {
+			if i < len(args) {
+				env.names[n] = args[i]
+			}
+		}
+		if ci.fn != nil && len(ci.fn.FreeVars) > 0 && len(ci.bindings) == len(ci.fn.FreeVars) {
+			for i, fv := range ci.fn.FreeVars {
+				if _, clash := env.names[fv.Name()]; !clash {
+					cell := ci.bindings[i]
+					cell.T = fv.Type()
+					env.names[fv.Name()] = x.loadVia(st, x.ptrOf(cell))
+				}
+			}
+		}
+		ord := x.callOrdinal(g, ci.key)
+		for i, cl := range fs.Requires {
+			goal := env.evalGoal(cl.Expr)
+			x.e.obligation(st, "call-pre", fmt.Sprintf("go:%s#%d:%s", shortKey(ci.key), ord, clauseName(cl, i)), cl.Tag, cl.Text, cl.Pos.String(), goal)
+		}
+	}
 	x.recordEventVals(st, g, ci.key, "go", args, paramNames(ci, x.e.w.Contracts[ci.key]))
 	x.e.note("go statement in %s: spawned call %s recorded, body not executed here", shortKey(FuncKey(g.Parent())), shortKey(ci.key))
 }
